@@ -15,9 +15,14 @@ Definition cls_ok (n : Z) (r : cls) : Prop :=
   (forall k t, In (k, t) (c_fields r) -> ref_ok n t) /\
   NoDup (map fst (c_fields r)).
 
+(** a registered variant is newer than its root, and is registered once *)
+Definition var_ok (n : Z) (p : cid * cid) : Prop :=
+  ref_ok n (fst p) /\ ref_ok n (snd p) /\ fst p < snd p.
+
 Definition wf (s : store) : Prop :=
   Forall (cls_ok (size s)) (cl s) /\
-  Forall (fun p => ref_ok (size s) (fst p) /\ ref_ok (size s) (snd p)) (variants s).
+  Forall (var_ok (size s)) (variants s) /\
+  NoDup (map snd (variants s)).
 
 (** boolean versions, evaluated on the initial store the harness builds *)
 Definition ref_okb (n : Z) (c : cid) : bool := (0 <=? c) && (c <? n).
@@ -32,9 +37,15 @@ Definition cls_okb (n : Z) (r : cls) : bool :=
   && match c_extends r with Some (Some e) => ref_okb n e | _ => true end
   && forallb (fun kt => ref_okb n (snd kt)) (c_fields r)
   && nodupb (map fst (c_fields r)).
+Fixpoint zmemb (x : Z) (l : list Z) : bool :=
+  match l with [] => false | y :: r => (x =? y) || zmemb x r end.
+Fixpoint znodupb (l : list Z) : bool :=
+  match l with [] => true | x :: r => negb (zmemb x r) && znodupb r end.
 Definition wfb (s : store) : bool :=
   forallb (cls_okb (size s)) (cl s)
-  && forallb (fun p => ref_okb (size s) (fst p) && ref_okb (size s) (snd p)) (variants s).
+  && forallb (fun p => ref_okb (size s) (fst p) && ref_okb (size s) (snd p) && (fst p <? snd p))
+             (variants s)
+  && znodupb (map snd (variants s)).
 
 (** * the registry of variants is complete: every customized complex class
     (other than a direct customization of ComplexModel itself, which
